@@ -155,6 +155,15 @@ def streams(ctx):
     ctx.run_cases(RAW, "shipped-replies-reencoded", shipped(), exhaustive=True)
     for kind in ("state", "thermo", "shutter", "login"):
         ctx.run_cases(ENC, f"encoded-{kind}", _encode_all(rng, ctx.n(1000, 20000), kind), exhaustive=False, sample_every=499)
+    # what a reply says does not depend on where the client's host is: the same streams on hosts in other zones
+    import apiharness as H
+    try:
+        for zone in ("Asia/Kathmandu", "America/St_Johns", "Pacific/Kiritimati"):
+            H.set_tz(zone)
+            for kind in ("state", "thermo"):
+                ctx.run_cases(ENC, f"encoded-{kind}-on-a-host-in-{zone}", _encode_all(rng, ctx.n(150, 3000), kind), exhaustive=False, sample_every=149)
+    finally:
+        H.set_tz("UTC")
     # every power value through the real watts_to_amps (quick: a sample)
     ws = range(65536) if not ctx.quick else sorted(set(list(range(0, 65536, 16)) + [rng.randrange(65536) for _ in range(2000)]))
     items = [{"kind": "state", "bg": "00" * 124, "fields": {"on": 1, "power": w, "left": 0, "ton": 0, "auto": 3600}} for w in ws]
